@@ -728,3 +728,48 @@ fn for_each_varblocks(
         }
     }
 }
+
+/// Verification only (`--cfg jxl_oxide_verif`): direct access to the per-varblock inverse transforms
+/// and 2-D DCTs of every code path, independent of runtime CPU dispatch.
+#[cfg(jxl_oxide_verif)]
+pub mod verif {
+    pub use super::dct_common::DctDirection;
+    use jxl_grid::MutableSubgrid;
+    use jxl_vardct::TransformType;
+
+    /// Paths available on this target: "generic", and on x86-64 "sse2" and "sse41".
+    pub fn paths() -> Vec<&'static str> {
+        let mut v = vec!["generic"];
+        #[cfg(target_arch = "x86_64")]
+        {
+            v.push("sse2");
+            if is_x86_feature_detected!("sse4.1") {
+                v.push("sse41");
+            }
+        }
+        v
+    }
+
+    pub fn transform(path: &str, coeff: &mut MutableSubgrid<'_, f32>, dct_select: TransformType) {
+        match path {
+            "generic" => super::generic::verif_transform(coeff, dct_select),
+            #[cfg(target_arch = "x86_64")]
+            "sse2" => super::x86_64::verif_transform_sse2(coeff, dct_select),
+            #[cfg(target_arch = "x86_64")]
+            "sse41" => super::x86_64::verif_transform_sse41(coeff, dct_select),
+            _ => panic!("unknown path {path}"),
+        }
+    }
+
+    pub fn dct_2d(path: &str, io: &mut MutableSubgrid<'_, f32>, direction: DctDirection) {
+        match path {
+            "generic" => super::generic::dct_2d(io, direction),
+            #[cfg(target_arch = "x86_64")]
+            "sse2" | "sse41" => super::x86_64::verif_dct_2d_sse2(io, direction),
+            _ => panic!("unknown path {path}"),
+        }
+    }
+
+    /// The whole per-channel varblock pass (LF injection + inverse transform) as dispatched at run time.
+    pub use super::impls::transform_varblocks;
+}
